@@ -426,4 +426,20 @@ def routeOf (svcs : List Service) (regs : List Registration) (msg : String) : Op
       | some r => some (r.impl, mm.1)
       | none => none
 
+/-- the implementation `m` resolves to on `T` starts (after statements that cannot touch state) with the per-chain server
+lookup that errors when the crosschain router has no route for the message's chain -/
+def needsRouteBody : List Stmt → Bool
+  | .nop _ :: rest => needsRouteBody rest
+  | .forward true _ _ :: _ => true
+  | _ => false
+
+def needsRoute (P : Program) (T m : String) : Bool :=
+  match resolve P T m with
+  | some impl => needsRouteBody impl.body
+  | none => false
+
+/-- the method of the Msg service that takes a message type -/
+def methodOf (svcs : List Service) (msg : String) : Option String :=
+  svcs.findSome? fun sv => (sv.methods.find? (fun mm => mm.2 == msg)).map (·.1)
+
 end FxVerif.Model.C16
